@@ -159,7 +159,7 @@ FNS = [
        rules=[POOL_ALIAS, Rule("R6-slot-index", r"unsafe \{ mutable_pool\.get_unchecked_mut\(([^()]*)\) \}", r"Self::slot_at(\1)", count=1)],
        pre_body="\n        proof { let x = slot_id as int; let n = POOL_SIZE as int; if x < n { assert(x % n == x) by(nonlinear_arith) requires 0 <= x, x < n; } }\n",
        requires="1 <= POOL_SIZE", ensures="(slot_id as int) < POOL_SIZE ==> r == slot_id as usize, r < POOL_SIZE"),
-    fn("dealloc_id", props=["C13", "C05", "C14"],
+    fn("dealloc_id", props=["C13", "C05", "C14", "C01"],
        sig="pub fn dealloc_id(&mut self, slot_id: u32)", sig_anchor=r"fn dealloc_id\(&self, slot_id: u32\)",
        rules=[Rule("R14-needs_drop", r"std::mem::needs_drop::<DataType>\(\)", "self.needs_drop()", count=1),
               Rule("R6-pool-alias", r"let pool = &mut \*\(self\.pool\.get\(\) as \*mut Box<\[DataType; POOL_SIZE\]>\);", "", count=1, note="UnsafeCell cast of the pool dropped (K executes it)"),
